@@ -1,4 +1,5 @@
 import Iec.Lemmas.Srv104
+import Iec.Lemmas.Srv104Activate
 import Iec.Props.C05
 /-
 C07 — CS104 server data-transfer state machine (STARTDT / STOPDT / TESTFR).
@@ -29,47 +30,8 @@ theorem write_ok (s : Slave) (i : Nat) (h : sockOk s i) (b : List Nat) : write s
 theorem testfr_answered (s : Slave) (i : Nat) (h : sockOk s i) :
     (handleMessage s i [0x68, 4, 0x43, 0, 0, 0]).2 = true ∧
     (handleMessage s i [0x68, 4, 0x43, 0, 0, 0]).1.log = s.log ++ [.tx i TESTFR_CON] := by
-  unfold handleMessage
+  unfold handleMessage hmTestFR hmStartDT hmStopDT hmS t3upd
   simp [write_ok s i h, emit, Slave.setConn]
-
-/-- deactivating other connections does not touch connection `i`'s socket or the table size -/
-theorem deactivate_facts (s : Slave) (j : Nat) :
-    (deactivate s j).conns.length = s.conns.length ∧ (deactivate s j).p = s.p ∧ (deactivate s j).now = s.now ∧
-    (deactivate s j).groups = s.groups ∧
-    ∀ i, i ≠ j → (deactivate s j).conn i = s.conn i := by
-  unfold deactivate
-  simp only
-  refine ⟨?_, ?_, ?_, ?_, ?_⟩
-  · split <;> simp [Slave.setConn, emit]
-  · split <;> rfl
-  · split <;> rfl
-  · split <;> rfl
-  · intro i hij
-    split <;> simp [Slave.conn, Slave.setConn, emit, List.getD_eq_getElem?_getD, List.getElem?_set_ne (Ne.symm hij)]
-
-theorem deactivate_fold (js : List Nat) : ∀ (s : Slave) (i : Nat), (∀ j ∈ js, j ≠ i) →
-    (js.foldl deactivate s).conns.length = s.conns.length ∧ (js.foldl deactivate s).p = s.p ∧
-    (js.foldl deactivate s).groups = s.groups ∧ (js.foldl deactivate s).now = s.now ∧
-    (js.foldl deactivate s).conn i = s.conn i := by
-  induction js with
-  | nil => intro s i _; simp
-  | cons j js ih =>
-    intro s i h
-    simp only [List.foldl_cons]
-    have hd := deactivate_facts s j
-    have := ih (deactivate s j) i (fun x hx => h x (by simp [hx]))
-    refine ⟨by rw [this.1, hd.1], by rw [this.2.1, hd.2.1], by rw [this.2.2.1, hd.2.2.2.1], by rw [this.2.2.2.1, hd.2.2.1], ?_⟩
-    rw [this.2.2.2.2]; exact hd.2.2.2.2 i (Ne.symm (h j (by simp)))
-
-theorem activateConn_facts (s : Slave) (i : Nat) (hi : i < s.conns.length) :
-    (activateConn s i).conn i = { (s.conn i) with state := 1 } ∧ (activateConn s i).conns.length = s.conns.length := by
-  unfold activateConn
-  simp only
-  split
-  · refine ⟨?_, by simp [Slave.setConn, emit]⟩
-    rw [conn_setConn _ _ _ (by simpa [emit] using hi)]; rfl
-  · refine ⟨?_, by simp [Slave.setConn]⟩
-    rw [conn_setConn _ _ _ hi]
 
 /-- **STARTDT act is answered with STARTDT con, and the connection is started afterwards** -/
 theorem startdt_answered (s : Slave) (i : Nat) (hi : i < s.conns.length) (h : sockOk s i) :
@@ -90,7 +52,7 @@ theorem startdt_answered (s : Slave) (i : Nat) (hi : i < s.conns.length) (h : so
   have hs2c : s2.conn i = s1.conn i := by rw [hs2]; rfl
   have hs2ok : sockOk s2 i := by unfold sockOk; rw [hs2c, hs1c.2.1]; exact h
   have hw := write_ok s2 i hs2ok STARTDT_CON
-  unfold handleMessage
+  unfold handleMessage hmTestFR hmStartDT hmStopDT hmS t3upd
   simp only [List.length_cons, List.length_nil, List.getD_cons_zero, List.getD_cons_succ]
   simp [← hs1, ← hs2, hw]
   refine ⟨?_, ?_⟩
@@ -106,7 +68,7 @@ theorem sframe_stopped_closes (s : Slave) (i : Nat) (hi : i < s.conns.length) (l
     (hst : (s.conn i).state = 0) : (handleMessage s i [0x68, 4, 0x01, 0, lo, hi8]).2 = false := by
   have hcs := checkSeqConn_facts s i ((lo + hi8 * 0x100) / 2) hi
   simp only at hcs
-  unfold handleMessage
+  unfold handleMessage hmTestFR hmStartDT hmStopDT hmS t3upd
   simp only [List.length_cons, List.length_nil, List.getD_cons_zero, List.getD_cons_succ]
   simp
   generalize hr : checkSeqConn s i ((lo + hi8 * 256) / 2) = r at hcs
@@ -132,17 +94,6 @@ theorem periodic_not_started (s : Slave) (i : Nat) (hst : (s.conn i).state ≠ 1
 theorem sendS_ok (s : Slave) (i : Nat) (h : sockOk s i) :
     sendS s i = emit s (.tx i [0x68, 0x04, 0x01, 0, seqLo (s.conn i).vr, seqHi (s.conn i).vr]) := by
   unfold sendS; simp [write_ok s i h]
-
-theorem deactivate_i (s : Slave) (i : Nat) (hi : i < s.conns.length) :
-    (deactivate s i).conn i = { (s.conn i) with state := 2 } ∧
-    (deactivate s i).log = s.log ++ (if (s.conn i).isUsed && (s.conn i).state = 1 then [.ev i "DEACTIVATED"] else []) := by
-  unfold deactivate
-  simp only
-  split
-  · refine ⟨?_, by simp [Slave.setConn, emit]⟩
-    rw [conn_setConn _ _ _ (by simpa [emit] using hi)]; rfl
-  · refine ⟨?_, by simp [Slave.setConn]⟩
-    rw [conn_setConn _ _ _ hi]
 
 /-- **STOPDT act: received I-frames are acknowledged first, and STOPDT con is sent only when no event ASDU
 transmitted on the connection is still unacknowledged** — the complete output of the step, for every server state:
@@ -192,7 +143,7 @@ theorem stopdt_sequence (s : Slave) (i : Nat) (hi : i < s.conns.length) (h : soc
         let w := write s3 i STOPDT_CON
         if w.2 then (w.1.setConn i { w.1.conn i with nextT3 := w.1.now + w.1.p.t3 * 1000 }, true) else (w.1, false)) := by
     show handleMessage s i [0x68, 4, 0x13, 0, 0, 0] = _
-    unfold handleMessage
+    unfold handleMessage hmTestFR hmStartDT hmStopDT hmS t3upd
     simp only [List.length_cons, List.length_nil, List.getD_cons_zero, List.getD_cons_succ]
     simp [← hs2]
   rw [hr, hu2]
@@ -238,7 +189,7 @@ theorem stopdt_con_after_ack (s : Slave) (i : Nat) (hi : i < s.conns.length) (h 
         if wr.2 then (wr.1.setConn i { wr.1.conn i with nextT3 := wr.1.now + wr.1.p.t3 * 1000 }, true) else (wr.1, false)
       else (s1.setConn i { s1.conn i with nextT3 := s1.now + s1.p.t3 * 1000 }, true)) := by
     show handleMessage s i [0x68, 4, 0x01, 0, lo, hi8] = _
-    unfold handleMessage
+    unfold handleMessage hmTestFR hmStartDT hmStopDT hmS t3upd
     simp only [List.length_cons, List.length_nil, List.getD_cons_zero, List.getD_cons_succ]
     generalize hg : checkSeqConn s i ((lo + hi8 * 0x100) / 2) = g at hok2 hs1
     obtain ⟨g1, g2⟩ := g
